@@ -52,13 +52,13 @@ ASSUMED = [
     # C10 proves add_taxon (is-member, members-kept, only-taxon-added) over the full namespace invariant; restated here
     # over the accession map alone, which is all that closure needs
     Contract(TX + ":TaxonNamespace.add_taxon", types={"taxon": "ref:Taxon"}, assumed=True, modifies=NS_MODS, frame=False,
-             may_raise=("ImmutableTaxonNamespaceError",),
+             may_raise=("ImmutableTaxonNamespaceError",), allowed_raises=("ImmutableTaxonNamespaceError",),
              ensures={"is-member": member("self", "taxon"), "members-kept": MEMBERS_KEPT_SELF, "others": OTHER_NS_UNTOUCHED}),
     Contract(TX + ":TaxonNamespace.require_taxon", types={"label": "opaque", "is_case_sensitive": "opaque", "return": "ref:Taxon"}, assumed=True,
-             modifies=NS_MODS, frame=False, may_raise=("ImmutableTaxonNamespaceError",),
+             modifies=NS_MODS, frame=False, may_raise=("ImmutableTaxonNamespaceError",), allowed_raises=("ImmutableTaxonNamespaceError",),
              ensures={"returns-a-member": member("self", "result"), "members-kept": MEMBERS_KEPT_SELF, "others": OTHER_NS_UNTOUCHED}),
     Contract(TX + ":TaxonNamespace.new_taxon", types={"label": "opaque", "return": "ref:Taxon"}, assumed=True,
-             modifies=NS_MODS, frame=False, may_raise=("ImmutableTaxonNamespaceError",),
+             modifies=NS_MODS, frame=False, may_raise=("ImmutableTaxonNamespaceError",), allowed_raises=("ImmutableTaxonNamespaceError",),
              ensures={"returns-a-member": member("self", "result"), "members-kept": MEMBERS_KEPT_SELF, "others": OTHER_NS_UNTOUCHED}),
 ]
 
@@ -183,12 +183,52 @@ class NSExecutor(Executor3):
 SUITE = Suite(SCHEMA, [TX, CM, TR, TC], CONTRACTS + ASSUMED, executor_cls=NSExecutor)
 
 
+def _assumed_states(c):
+    """namespaces with plain, duplicate and case-variant labels, mutable and frozen, looked up / extended by labels that are present, absent or differ in case"""
+    import itertools
+    import dendropy
+    from dendropy.datamodel.taxonmodel import Taxon
+    meth = c.name.split(".")[-1]
+    for labels, cs, frozen in itertools.product((["A", "B"], ["A", "a", "B"], ["A", "A"], []), (False, True), (False, True)):
+        for arg in ("A", "a", "Z", ""):
+            ns = dendropy.TaxonNamespace(is_case_sensitive=cs)
+            for l in labels:
+                ns.add_taxon(Taxon(l))
+            other = dendropy.TaxonNamespace(["A", "Q"])
+            foreign = Taxon(arg)
+            ns.is_mutable = not frozen
+            uni = {"Taxon": list(ns) + list(other) + [foreign], "TaxonNamespace": [ns, other]}
+            desc = "namespace %r case_sensitive=%r frozen=%r, argument %r" % (labels, cs, frozen, arg)
+            if meth == "add_taxon":
+                for t in [foreign] + list(ns)[:1]:
+                    yield dict(self=ns, taxon=t), uni, desc + (" (a member)" if t is not foreign else " (a new Taxon)")
+            elif meth in ("require_taxon", "get_taxon"):
+                yield dict(self=ns, label=arg), uni, desc
+            elif meth == "new_taxon":
+                yield dict(self=ns, label=arg), uni, desc
+
+
+def validate_assumed(ctx):
+    """the ASSUMED namespace contracts as run-time monitors around the real methods (bounded; never counted as proved)"""
+    import copy
+    cs = []
+    for c in ASSUMED:
+        c2 = copy.copy(c)
+        c2.assumed = False
+        cs.append(c2)
+    dreplay.validate_contracts_natively(
+        ctx, cs, _assumed_states, "assumed-contracts@namespaces",
+        rule="the contracts C11's proofs ASSUME for TaxonNamespace.add_taxon / require_taxon / new_taxon / get_taxon, checked natively on 4 label sets x "
+             "case sensitivity x frozen x 4 argument labels")
+
+
 def t1(ctx):
     ctx.assume("C11/T1: membership of a taxon in a namespace is membership in its accession dictionary (what `taxon in ns` tests); the label look-ups "
                "require_taxon / new_taxon are ASSUMED to return a member and to remove none (bounded: C10/C11 drivers); add_taxon is C10's proved contract restated; "
                "sequences and memo dictionaries are abstracted values")
     for c in CONTRACTS:
         verify_contract(ctx, SUITE, c, sentinels=False, replay=dreplay.replay_by_search(_states))
+    validate_assumed(ctx)
 
 
 # ----------------------------------------------------------------------------- native replay: small matrices
